@@ -2572,11 +2572,20 @@ evhttp_read_header(struct evhttp_connection *evcon,
 		break;
 
 	case EVHTTP_RESPONSE:
-		/* Start over if we got a 100 Continue response. */
-		if (req->response_code == 100) {
-			struct evbuffer *output = bufferevent_get_output(evcon->bufev);
-			evbuffer_add_buffer(output, req->output_buffer);
-			evhttp_start_write_(evcon);
+		/* Start over if we got an interim (1xx) response: its fields
+		 * do not belong to the final response, which is still to
+		 * come (RFC 9110 15.2).  101 ends HTTP on this connection
+		 * and is handed to the caller. */
+		if (req->response_code >= 100 && req->response_code < 200 &&
+		    req->response_code != HTTP_SWITCH_PROTOCOLS) {
+			evhttp_clear_headers(req->input_headers);
+			if (req->response_code == 100) {
+				struct evbuffer *output = bufferevent_get_output(evcon->bufev);
+				evbuffer_add_buffer(output, req->output_buffer);
+				evhttp_start_write_(evcon);
+			} else {
+				evhttp_start_read_(evcon);
+			}
 			return;
 		}
 		if (!evhttp_response_needs_body(req)) {
